@@ -1955,3 +1955,12 @@ func tableFirstRule(prog *Program, ins ssa.Instruction) bool {
 	}
 	return false
 }
+
+// checkComparatorCalls: the comparator-call obligations of the site analysis alone (the literal handed to a comparator is
+// the one coerced for the same kind on a path where that coercion's error is nil, the value is of that kind), on the
+// matchers and what they call.
+func checkComparatorCalls(r *Run, prog *Program, a *Anchors, roots map[*ssa.Function]bool) {
+	c09SiteKinds = map[string]bool{"comparator-call": true}
+	checkPanicSites(r, prog, a, "c09", roots, nil, false, 1)
+	c09SiteKinds = nil
+}
